@@ -154,13 +154,6 @@ impl Check for C09 {
                     && c["first_operator"] == "-"
                     && v.class == "paren-mismatch"
             }
-            // f"\x7b\x7b": two braces of which at least one is written as an
-            // escape are collapsed like `{{`
-            "fstring_escaped_brace_pair" => {
-                c["kind"] == "fstring"
-                    && c["escaped_brace_next_to_same_brace"] == true
-                    && v.class == "value-mismatch"
-            }
             // CR LF line end inside a string / f-string (continuation or multi-line)
             "crlf_line_end_in_literal" => {
                 ["string-continuation", "string-raw", "fstring"].contains(&c["kind"].as_str().unwrap_or(""))
